@@ -29,6 +29,8 @@ type CaseC17 struct {
 
 var errC17Pred = errors.New("harness: predicate failed")
 
+var errC17WrapsDone = fmt.Errorf("harness: predicate gave up: %w", gots.ErrAccumulatorDone)
+
 func c17Pred(kind string, k int) func([]byte) (bool, error) {
 	switch kind {
 	case "done-at":
@@ -42,6 +44,22 @@ func c17Pred(kind string, k int) func([]byte) (bool, error) {
 		}
 	case "always":
 		return func(b []byte) (bool, error) { return true, nil }
+	case "err-once-at", "err-sentinel-once-at", "err-wrapped-sentinel-once-at":
+		// fails when the length first reaches k and is simply "not yet done" once it has grown past k+184; the
+		// error may be the library's own completion sentinel or wrap it - it still is the predicate's error
+		e := errC17Pred
+		if kind == "err-sentinel-once-at" {
+			e = gots.ErrAccumulatorDone
+		} else if kind == "err-wrapped-sentinel-once-at" {
+			e = errC17WrapsDone
+		}
+		// a pure function of the bytes (the model evaluates it too): fails only while the length is within one packet of k
+		return func(b []byte) (bool, error) {
+			if len(b) >= k && len(b) < k+184 {
+				return false, e
+			}
+			return false, nil
+		}
 	case "done-and-err-at":
 		// complete and failing at once: the error must not be lost
 		return func(b []byte) (bool, error) {
@@ -89,7 +107,7 @@ func genC17Packet(t *rapid.T) []byte {
 
 func genC17(t *rapid.T) CaseC17 {
 	c := CaseC17{}
-	c.Pred = rapid.SampledFrom([]string{"done-at", "done-at", "err-at", "never", "always", "done-and-err-at"}).Draw(t, "pred")
+	c.Pred = rapid.SampledFrom([]string{"done-at", "done-at", "err-at", "never", "always", "done-and-err-at", "err-once-at", "err-sentinel-once-at", "err-wrapped-sentinel-once-at"}).Draw(t, "pred")
 	c.K = rapid.SampledFrom([]int{0, 1, 10, 184, 185, 300, 368, 500, 1000}).Draw(t, "k")
 	n := rapid.IntRange(1, 30).Draw(t, "steps")
 	for i := 0; i < n; i++ {
@@ -373,7 +391,7 @@ func isSubseq(small, big [][]byte) bool {
 var propC17 = hx.Register(hx.Prop[CaseC17]{ID: "C17", Gen: genC17, Check: checkC17})
 
 func c17Rule() {
-	hx.Rec("C17").SetRule("cases: histories of 1..30 calls (WritePacket with a generated well-formed packet: PUSI on/off, payload-less, af_len 0, short payload behind stuffing, full payload, or the previous packet again byte for byte; Bytes; Packets; Reset) on one accumulator with a drawn predicate (done when >= k bytes, error when >= k bytes, done and error at once when >= k bytes, never, always; k from {0,1,10,184,185,300,368,500,1000}). Oracle: a three-state reference model (starting/accumulating/done, byte buffer, packet list); after EVERY call Bytes() and Packets() are compared with the model, returned slices are scribbled on and the caller's packet is modified to detect aliasing, and after a Reset a fresh accumulator is driven in lockstep (differential); a second accumulator is fed other packets between the steps, Reset at the same moments, and checked as well. Non-trivial: the history contains a second unit start, a write after completion, a predicate error, or a Reset.",
+	hx.Rec("C17").SetRule("cases: histories of 1..30 calls (WritePacket with a generated well-formed packet: PUSI on/off, payload-less, af_len 0, short payload behind stuffing, full payload, or the previous packet again byte for byte; Bytes; Packets; Reset) on one accumulator with a drawn predicate (done when >= k bytes, error when >= k bytes, done and error at once when >= k bytes, error exactly once (own error, the library's completion sentinel, or a wrapper of it) and not done afterwards, never, always; k from {0,1,10,184,185,300,368,500,1000}). Oracle: a three-state reference model (starting/accumulating/done, byte buffer, packet list); after EVERY call Bytes() and Packets() are compared with the model, returned slices are scribbled on and the caller's packet is modified to detect aliasing, and after a Reset a fresh accumulator is driven in lockstep (differential); a second accumulator is fed other packets between the steps, Reset at the same moments, and checked as well. Non-trivial: the history contains a second unit start, a write after completion, a predicate error, or a Reset.",
 		"a payload-less packet that passed the unit-start gate may or may not appear in Packets(): the list must contain the contributing packets in order and nothing but packets submitted since the last unit start",
 		"only well-formed packets are written (malformed ones are C05's business)")
 }
